@@ -32,10 +32,27 @@ What the statement leaves open, and how the reference treats it (no false alarms
     range, integer range not larger than its number of samples) show every value, (d) the number of non-initial
     suggestions is |grid| - |initial points on the grid|.
 
-Known discrepancy of the unchanged tree (own clause, reported as found, see the final report of the build log):
-  ``grid-enumerated-exactly-once[finite-range-with-colliding-rounded-values]`` -- GridSearcher takes
-  ``FiniteRange.values`` as is; with ``cast_int=True`` several entries can round to the same integer
-  (finrange(1, 3, 5, cast_int=True) -> [1, 2, 2, 2, 3]) and grid search suggests the same configuration repeatedly.
+  * "suggest answers": a scheduler / searcher that raises instead of answering violates "initial configurations ... are
+    suggested first" / "every configuration a scheduler suggests ..." trivially; the clause
+    ``suggest-answers-without-raising`` records such crashes and lets all other scenarios continue.
+  * scenario histories use one random generator per scenario (derived from the seed and the scenario description), so
+    the catalogue does not shift when a changed library takes more or fewer steps.
+
+Known discrepancies of the unchanged tree (each has its OWN clause so that everything else stays green; found by this
+monitor, reproduced stand-alone):
+  (D1) ``grid-enumerated-exactly-once[finite-range-with-colliding-rounded-values]`` -- GridSearcher takes
+       ``FiniteRange.values`` as is; with ``cast_int=True`` several entries can round to the same integer
+       (finrange(1, 3, 5, cast_int=True) -> [1, 2, 2, 2, 3], logfinrange(1, 16, 8, cast_int=True) -> [1, 1, 2, 3, 5, ...])
+       and grid search suggests the same configuration repeatedly (the analogue of the lograndint de-duplication
+       that _generate_all_candidates_on_grid does for Integer ranges is missing for FiniteRange).
+  (D2) ``suggest-answers-without-raising[dehb-own-sampler,imputed-default-of-integer-nn-ordinal]`` -- the mid-point
+       rule returns ``np.clip(midpoint, lower, upper)``, a numpy scalar; for a nearest-neighbour ordinal with integer
+       categories DEHB's own sampler encodes the imputed initial configuration with hp_ranges.to_ndarray, which asserts
+       ``value = 10 has type <class 'numpy.int64'>, must be str, int, or float`` -> the first suggest raises.
+  (D3) ``suggest-answers-without-raising[dehb-own-sampler,history-with-failed-trials]`` -- after ALL trials of a rung
+       failed, get_top_list promotes failed slots whose trial id is None and DEHB._mutation / _de_mutation raise
+       KeyError(None) in the next suggest (exhibited deterministically by failing trials 9, 10, 11 = base rung of
+       bracket 1; seed-dependently by the 15%-failure histories).
 
 Bounded stand-in, never counted as proved.
 """
@@ -66,10 +83,11 @@ C_GRID = "grid-enumerated-exactly-once"
 C_GRID_COLL = "grid-enumerated-exactly-once[finite-range-with-colliding-rounded-values]"
 C_CRASH = "suggest-answers-without-raising"
 C_CRASH_DEHB = "suggest-answers-without-raising[dehb-own-sampler,imputed-default-of-integer-nn-ordinal]"
+C_CRASH_DEHB_FAIL = "suggest-answers-without-raising[dehb-own-sampler,history-with-failed-trials]"
 C_PBT_DOM = "pbt-explored-value-inside-its-domain"
 C_PBT_TYPE = "pbt-explored-value-has-the-type-of-its-domain"
 
-CLAUSES = [C_KEYS, C_CONST, C_TYPE, C_DOM, C_INIT, C_MID, C_CAT0, C_DEDUP, C_REP_FIN, C_REP_PEND, C_REP_FAIL, C_FAIL_DUP, C_NONE, C_GRID, C_GRID_COLL, C_CRASH, C_CRASH_DEHB, C_PBT_DOM, C_PBT_TYPE]
+CLAUSES = [C_KEYS, C_CONST, C_TYPE, C_DOM, C_INIT, C_MID, C_CAT0, C_DEDUP, C_REP_FIN, C_REP_PEND, C_REP_FAIL, C_FAIL_DUP, C_NONE, C_GRID, C_GRID_COLL, C_CRASH, C_CRASH_DEHB, C_CRASH_DEHB_FAIL, C_PBT_DOM, C_PBT_TYPE]
 
 MAX_VIOL = 5
 RTOL_BOUND = 1e-12
@@ -766,7 +784,7 @@ class _MultiFidAd(_FifoAd):
 # --------------------------------------------------------------------------------------------------------------
 # the generic sequence runner (random / grid / BO / hyperband / DEHB)
 # --------------------------------------------------------------------------------------------------------------
-def _run_sequence(ctx, sc, space, ad, raw_p2e, promise, steps, rng, fates=(0.5, 0.2, 0.3), approx_given=False, grid=None, blocks_failed=False, const_latitude=(), none_judged=True, crash_clause=C_CRASH):
+def _run_sequence(ctx, sc, space, ad, raw_p2e, promise, steps, rng, fates=(0.5, 0.2, 0.3), approx_given=False, grid=None, blocks_failed=False, const_latitude=(), none_judged=True, crash_clause=C_CRASH, forced_fail=()):
     """promise: the searcher promises not to repeat itself.  fates = P(finish), P(fail), P(stay pending)
     grid: None or dict(num_samples=..., colliding=bool) -> end-of-run enumeration clause"""
     ctx.scenario(sc)
@@ -844,7 +862,9 @@ def _run_sequence(ctx, sc, space, ad, raw_p2e, promise, steps, rng, fates=(0.5, 
             p_pend = 0.0
         u = rng.rand() * (p_fin + p_fail + p_pend)
         todo = []
-        if u < p_fin:
+        if step in forced_fail:
+            todo.append((rec, "failed"))
+        elif u < p_fin:
             todo.append((rec, "finished"))
         elif u < p_fin + p_fail:
             todo.append((rec, "failed"))
@@ -1124,7 +1144,7 @@ def _fam_grid(ctx, E, spaces, rng, n_p2e, lib_seed, via_scheduler, colliding=Fal
                         _run_sequence(ctx, sc, space, ad, raw, promise=True, steps=steps, rng=rng, grid={"num_samples": ns, "colliding": colliding})
 
 
-def _fam_hyperband(ctx, E, spaces, rng, lib_seed, searchers, types, steps_inf, n_p2e=3, search_options=None):
+def _fam_hyperband(ctx, E, spaces, rng, lib_seed, searchers, types, steps_inf, n_p2e=3, search_options=None, steps_plus_initial=False):
     for space in spaces:
         size = space.size()
         for label, raw in _p2e_variants(space, rng, n_p2e):
@@ -1144,7 +1164,7 @@ def _fam_hyperband(ctx, E, spaces, rng, lib_seed, searchers, types, steps_inf, n
                         _run_sequence(ctx, sc, space, ad, raw, promise=True, steps=min(size, 60) + len(raw or [1]) + 4 if size is not None else 30, rng=rng, none_judged=False)
                     else:
                         to_the_end = size is not None and ((searcher == "random" and size <= 40) or size <= 8)
-                        steps = (size + len(raw or [1]) + 3) if to_the_end else steps_inf
+                        steps = (size + len(raw or [1]) + 3) if to_the_end else steps_inf + len(raw or [1]) + 2  # 2 = num_init_random + (len(raw or [1]) + 2 if steps_plus_initial else 0)
                         _run_sequence(ctx, sc, space, ad, raw, promise=True, steps=steps, rng=rng, none_judged=to_the_end or size is None)
 
 
@@ -1166,24 +1186,34 @@ def _fam_bo_fifo(ctx, E, spaces, rng, lib_seed, steps_inf, n_p2e):
             # run to exhaustion only in tiny spaces with uniform sampling probabilities: the random candidate generators
             # of the BO code give up after a bounded number of rejected draws as well (same family as F6)
             to_the_end = size is not None and size <= 8
-            steps = (size + len(raw or [1]) + 3) if to_the_end else steps_inf
+            steps = (size + len(raw or [1]) + 3) if to_the_end else steps_inf + len(raw or [1]) + 2  # 2 = num_init_random
             _run_sequence(ctx, sc, space, ad, raw, promise=True, steps=steps, rng=rng, fates=(0.6, 0.15, 0.25), none_judged=to_the_end or size is None)
 
 
 def _fam_dehb(ctx, E, spaces, rng, lib_seed, steps, n_p2e):
+    def run(space, label, raw, hist_label, fates, clause, forced=()):
+        sc = _scen("dehb[random_encoded]", space, label, raw, {"max_resource_level": 9, "grace_period": 1, "reduction_factor": 3, "history": hist_label}, lib_seed)
+        sched = E.DEHB(space.build(), searcher="random_encoded", search_options={"debug_log": False}, mode="min", metric="loss", max_resource_level=9, grace_period=1, reduction_factor=3, resource_attr="epoch", random_seed=lib_seed, points_to_evaluate=_copy_p2e(raw))
+        ad = _MultiFidAd(sched, E, max_t=9, can_pend=False)
+        _run_sequence(ctx, sc, space, ad, raw, promise=True, steps=steps, rng=rng, fates=fates, approx_given=True, crash_clause=clause, forced_fail=forced)
+
     for space in spaces:
+        # two known discrepancies of the unchanged tree have their own clause for "suggest raised":
+        #  (1) the imputed default of a nearest-neighbour ordinal with integer categories is a numpy scalar, which DEHB's
+        #      encoder rejects  -> spaces with such a hyperparameter (run without failures)
+        #  (2) after ALL trials of a rung failed, _mutation picks the trial id None  -> every history with failed trials
+        nn_int = any(r.fam == "cat" and r.ordkind in ("nn", "nn-log") and len(r.cats) > 1 and isinstance(r.cats[0], int) for r in space.refs.values())
         for label, raw in _p2e_variants(space, rng, n_p2e):
             try:
                 _ref_initial(raw, space)
             except _Ambiguous:
                 continue
-            sc = _scen("dehb[random_encoded]", space, label, raw, {"max_resource_level": 9, "grace_period": 1, "reduction_factor": 3}, lib_seed)
-            sched = E.DEHB(space.build(), searcher="random_encoded", search_options={"debug_log": False}, mode="min", metric="loss", max_resource_level=9, grace_period=1, reduction_factor=3, resource_attr="epoch", random_seed=lib_seed, points_to_evaluate=_copy_p2e(raw))
-            ad = _MultiFidAd(sched, E, max_t=9, can_pend=False)
-            # known discrepancy of the unchanged tree (own clause): the imputed default of a nearest-neighbour ordinal
-            # with integer categories is a numpy scalar, which DEHB's encoder rejects
-            nn_int = any(r.fam == "cat" and r.ordkind in ("nn", "nn-log") and len(r.cats) > 1 and isinstance(r.cats[0], int) for r in space.refs.values())
-            _run_sequence(ctx, sc, space, ad, raw, promise=True, steps=steps, rng=rng, fates=(0.85, 0.15, 0.0), approx_given=True, crash_clause=C_CRASH_DEHB if nn_int else C_CRASH)
+            run(space, label, raw, "all trials finish", (1.0, 0.0, 0.0), C_CRASH_DEHB if nn_int else C_CRASH)
+            if not nn_int:
+                run(space, label, raw, "15% of the trials fail", (0.85, 0.15, 0.0), C_CRASH_DEHB_FAIL)
+    # (2) deterministically: rungs 9/3/1 at levels 1/3/9 -> bracket 0 starts trials 0..8, bracket 1 trials 9, 10, 11
+    space = [s for s in spaces if s.name == "bo-mixed"][0]
+    run(space, "empty-list", [], "trials 9, 10, 11 (a whole rung) fail", (1.0, 0.0, 0.0), C_CRASH_DEHB_FAIL, forced=(9, 10, 11))
 
 
 # ---- PBT ------------------------------------------------------------------------------------------------------
@@ -1296,32 +1326,43 @@ def _fam_pbt(ctx, E, rng, lib_seed, rounds, tier):
 def monitor_suggestions(tier="quick", seed=0):
     E = _env()
     quick = tier == "quick"
-    rng = np.random.RandomState(seed)
+    rng = np.random.RandomState(seed)  # catalogue generation only; histories use one generator per scenario
     lib_seed = int(seed) * 7919 + 13
     ctx = _Ctx()
     ctx.seed = int(seed)
+    B = {  # the bounds of this run
+        "random_spaces": 12 if quick else 40,
+        "p2e_variants": 6 if quick else 10,
+        "max_finite_size": 40,
+        "max_grid": 250,
+        "bo_model_steps": 7 if quick else 10,
+        "bo_p2e": 4 if quick else 6,
+        "hb_steps": 14,
+        "dehb_steps": 45 if quick else 90,
+        "pbt_rounds": 20 if quick else 40,
+    }
 
     enum_spaces = [_Space(n, s, E) for n, s in _enumerated_finite_spaces()]
-    n_rnd = 6 if quick else 30
-    rnd_finite = [_Space(*_random_space(rng, i, finite=True, max_size=40), E) for i in range(n_rnd)]
+    n_rnd = B["random_spaces"]
+    rnd_finite = [_Space(*_random_space(rng, i, finite=True, max_size=B["max_finite_size"]), E) for i in range(n_rnd)]
     rnd_mixed = [_Space(*_random_space(rng, i, finite=False, with_infinite=int(rng.randint(1, 3))), E) for i in range(n_rnd)]
     inf_singles = [_Space("inf1-%d" % i, {"x": s, "c": ("const", 32)}, E) for i, s in enumerate(_INFINITE_POOL)]
     colliding = [_Space("coll-%d" % i, {"h": s}, E) for i, s in enumerate(_COLLIDING_POOL)] + [_Space("coll-cat", {"a": ("logfinrange", 1, 16, 8, True), "b": ("choice", ("x", "y"))}, E)]
 
-    n_p2e = 6 if quick else 10
+    n_p2e = B["p2e_variants"]
     # random search: searcher level and through FIFOScheduler
-    finite_for_random = [s for s in enum_spaces + rnd_finite if s.size() is not None and s.size() <= 40]
+    finite_for_random = [s for s in enum_spaces + rnd_finite if s.size() is not None and s.size() <= B["max_finite_size"]]
     _fam_random(ctx, E, finite_for_random, rng, n_p2e, lib_seed, via_scheduler=False)
     _fam_random(ctx, E, finite_for_random[:: (2 if quick else 1)] + rnd_mixed + inf_singles, rng, n_p2e, lib_seed + 1, via_scheduler=True)
-    _fam_random(ctx, E, rnd_mixed[: (3 if quick else 12)], rng, n_p2e, lib_seed + 2, via_scheduler=False)
+    _fam_random(ctx, E, rnd_mixed[: (4 if quick else 16)], rng, n_p2e, lib_seed + 2, via_scheduler=False)
     # grid search
     grid_spaces = enum_spaces + rnd_finite
-    _fam_grid(ctx, E, grid_spaces, rng, n_p2e, lib_seed, via_scheduler=False)
-    _fam_grid(ctx, E, grid_spaces[:: (3 if quick else 1)] + rnd_mixed[: (3 if quick else 10)] + inf_singles[:: (3 if quick else 1)], rng, 4 if quick else 8, lib_seed + 3, via_scheduler=True)
+    _fam_grid(ctx, E, grid_spaces, rng, n_p2e, lib_seed, via_scheduler=False, max_grid=B["max_grid"])
+    _fam_grid(ctx, E, grid_spaces[:: (3 if quick else 1)] + rnd_mixed[: (4 if quick else 14)] + inf_singles[:: (3 if quick else 1)], rng, 4 if quick else 8, lib_seed + 3, via_scheduler=True, max_grid=B["max_grid"])
     _fam_grid(ctx, E, colliding, rng, 3, lib_seed, via_scheduler=False, colliding=True)
     # asynchronous Hyperband wrappers with random / grid searchers
-    hb_spaces = [s for s in enum_spaces if s.name in ("logint-cat-const", "int-cat", "singles-and-one", "negint-fin-const")] + rnd_mixed[: (2 if quick else 8)] + rnd_finite[: (1 if quick else 6)]
-    _fam_hyperband(ctx, E, hb_spaces, rng, lib_seed + 4, ("random", "grid"), ("stopping", "promotion"), steps_inf=14, n_p2e=4 if quick else 7)
+    hb_spaces = [s for s in enum_spaces if s.name in ("logint-cat-const", "int-cat", "singles-and-one", "negint-fin-const")] + rnd_mixed[: (3 if quick else 10)] + rnd_finite[: (2 if quick else 8)]
+    _fam_hyperband(ctx, E, hb_spaces, rng, lib_seed + 4, ("random", "grid"), ("stopping", "promotion"), steps_inf=B["hb_steps"], n_p2e=4 if quick else 7)
     # model based: GP-BO (FIFO), GP multi-fidelity and HyperTune (Hyperband), DEHB
     tiny = [_Space("bo-tiny", {"a": ("randint", 0, 2), "b": ("choice", ("x", "y")), "k": ("const", 32)}, E)]
     tiny2 = [_Space("bo-tiny2", {"o": ("ordinal", ("s", "m", "l"), "equal"), "n": ("randint", -1, 0)}, E)]
@@ -1329,29 +1370,39 @@ def monitor_suggestions(tier="quick", seed=0):
         _Space("bo-mixed", {"x": ("uniform", -1.0, 1.0), "lr": ("loguniform", 1e-3, 1.0), "n": ("randint", -2, 3), "act": ("choice", ("relu", "tanh", "gelu")), "k": ("const", "adam")}, E),
         _Space("bo-ints", {"a": ("lograndint", 1, 5), "f": ("finrange", 0.0, 1.0, 3, False), "o": ("ordinal", (1, 2, 4, 8), "nn"), "c": ("const", 0.1)}, E),
     ]
-    _fam_bo_fifo(ctx, E, tiny + bo_mixed + ([] if quick else rnd_mixed[:4] + tiny2), rng, lib_seed + 5, steps_inf=9 if quick else 12, n_p2e=3 if quick else 5)
+    _fam_bo_fifo(ctx, E, tiny + bo_mixed + tiny2 + rnd_mixed[: (2 if quick else 8)], rng, lib_seed + 5, steps_inf=B["bo_model_steps"], n_p2e=B["bo_p2e"])
     mf_opts = {"num_init_random": 2, "num_init_candidates": 16, "opt_nstarts": 1, "opt_maxiter": 3}
-    _fam_hyperband(ctx, E, tiny + bo_mixed[: (1 if quick else 2)], rng, lib_seed + 6, ("bayesopt", "hypertune") if not quick else ("bayesopt",), ("promotion", "stopping") if not quick else ("promotion",), steps_inf=8 if quick else 10, n_p2e=2 if quick else 4, search_options=mf_opts)
-    if quick:
-        _fam_hyperband(ctx, E, bo_mixed[:1], rng, lib_seed + 7, ("hypertune",), ("stopping",), steps_inf=7, n_p2e=2, search_options=mf_opts)
+    _fam_hyperband(ctx, E, tiny + bo_mixed[: (1 if quick else 2)] + ([] if quick else rnd_mixed[:3]), rng, lib_seed + 6, ("bayesopt", "hypertune"), ("promotion", "stopping"), steps_inf=B["bo_model_steps"], n_p2e=2 if quick else 4, search_options=mf_opts, steps_plus_initial=True)
     dehb_nn = [_Space("dehb-nn-int", {"width": ("ordinal", (1, 10, 100), "nn-log"), "x": ("uniform", 0.0, 1.0)}, E)]
-    dehb_spaces = dehb_nn + [s for s in bo_mixed[:1] + rnd_mixed[: (4 if quick else 14)] + inf_singles[:: (3 if quick else 1)] if s.surely_infinite()]
-    _fam_dehb(ctx, E, dehb_spaces, rng, lib_seed + 8, steps=45 if quick else 90, n_p2e=3 if quick else 6)
+    dehb_spaces = dehb_nn + [s for s in bo_mixed[:1] + rnd_mixed[: (6 if quick else 20)] + inf_singles[:: (3 if quick else 1)] if s.surely_infinite()]
+    _fam_dehb(ctx, E, dehb_spaces, rng, lib_seed + 8, steps=B["dehb_steps"], n_p2e=3 if quick else 6)
     # PBT
-    _fam_pbt(ctx, E, rng, lib_seed + 9, rounds=12 if quick else 40, tier=tier)
+    _fam_pbt(ctx, E, rng, lib_seed + 9, rounds=B["pbt_rounds"], tier=tier)
 
     unexercised = [c for c in CLAUSES if ctx.n[c] == 0]
     if unexercised:
         raise RuntimeError("clauses without a single check: %r" % unexercised)
-    summary = "%d scenarios, %d suggestions checked (%s); finite spaces <= 40 configurations for random/BO exhaustion, <= ~200 grid points; <= 3 hyperparameters + <= 2 constants per random space; points_to_evaluate: up to %d variants per space (None, [], [{}], full, partial, repeated, bounds, spelled-out mid-points); histories: random finished/failed/pending fates; BO <= %d suggestions, DEHB <= %d, PBT %d rounds x 6 spaces x 5 top configs x %d resample probabilities x 3 policies; %d 'None after >= 100 rejected draws' cases not judged (known F6)" % (
-        ctx.scenarios,
-        ctx.suggestions,
-        ", ".join("%s: %d" % kv for kv in sorted(ctx.fam_count.items())),
-        n_p2e,
-        9 if quick else 12,
-        45 if quick else 90,
-        12 if quick else 40,
-        3 if quick else 4,
-        ctx.excluded_f6,
+    summary = (
+        "%d scenarios / %d suggestions (%s). Bounds: %d enumerated + %d random finite spaces (<= 3 hyperparameters, <= 2 constants, <= %d configurations, run until 'nothing left' "
+        "answered twice) and %d random mixed spaces (+1-2 infinite / quantised domains), 13 one-dimensional infinite spaces; grids <= %d points; up to %d points_to_evaluate variants "
+        "per space (None, [], [{}], full, partial, repeated, bounds, spelled-out mid-points, with constant key); every trial finished / failed / left pending at random, older pending ones resolved later; "
+        "BO: %d model-based steps after the initial points, run to the end only in spaces <= 8 configurations; Hyperband max_t=9 rungs 1,3,9; DEHB %d suggestions per scenario (infinite spaces only); "
+        "PBT: 6 spaces x 5 top configurations x %d resample probabilities x 3 policies (star / chain / random), %d rounds; %d 'None after >= 100 rejected draws' answers not judged (known F6)"
+        % (
+            ctx.scenarios,
+            ctx.suggestions,
+            ", ".join("%s: %d" % kv for kv in sorted(ctx.fam_count.items())),
+            len(enum_spaces),
+            n_rnd,
+            B["max_finite_size"],
+            n_rnd,
+            B["max_grid"],
+            n_p2e,
+            B["bo_model_steps"],
+            B["dehb_steps"],
+            3 if quick else 4,
+            B["pbt_rounds"],
+            ctx.excluded_f6,
+        )
     )
     return {"evaluations": int(sum(ctx.n.values())), "distinct": int(ctx.scenarios), "clauses": list(CLAUSES), "violations": ctx.viol, "samples": ctx.samples[:4], "summary": summary}
